@@ -253,7 +253,7 @@ Fixpoint rtoks (c : ctx) (t : term) {struct t} : option (list tok) :=
   | TLit _ None | TParam _ =>
       s <~ leaf_text (set_wa c false) t ;; match s with EmptyString => None | _ => Some [KAtom s] end
   | TNeg t' =>
-      a0 <~ rtoks (opc SNeg t' c) t' ;;
+      a0 <~ rtoks (opc SNeg t' (set_wa c false)) t' ;;
       let a := parl (operand_parens SNeg (okind_of t')) a0 in
       Some (KNeg :: parl (match t' with TArith _ _ _ _ => neg_parens_arith | TNeg _ => neg_parens_neg | _ => false end
                           || (neg_parens_minus && starts_minus (flatten a))) a)
@@ -270,21 +270,23 @@ Fixpoint rtoks (c : ctx) (t : term) {struct t} : option (list tok) :=
       a <~ rtoks (opc SCmpL l c') l ;; b <~ rtoks (opc SCmpR r c') r ;;
       Some (parl (operand_parens SCmpL (okind_of l)) a ++ KOp (BC cm) :: parl (operand_parens SCmpR (okind_of r)) b)
   | TCplx bo l r None =>
-      a <~ rtoks (set_subc c (needs_brackets_x bo (top_bop l))) l ;;
-      b <~ rtoks (set_subc c (needs_brackets_x bo (top_bop r))) r ;;
+      a <~ rtoks (set_subc (set_wa c false) (needs_brackets_x bo (top_bop l))) l ;;
+      b <~ rtoks (set_subc (set_wa c false) (needs_brackets_x bo (top_bop r))) r ;;
       Some (parl (subc c) (a ++ KOp (BB bo) :: b))
   | TIn t' (TTuple vs None) negated None =>
-      a <~ rtoks (opc SInTerm t' (set_subq c false)) t' ;; items <~ rtoks_items (set_subq c true) vs ;;
+      a <~ rtoks (opc SInTerm t' (set_wa (set_subq c false) false)) t' ;;
+      items <~ rtoks_items (set_wa (set_wa (set_subq c true) false) false) vs ;;
       Some (parl (operand_parens SInTerm (okind_of t')) a ++ KIn negated :: KLP :: items ++ [KRP])
   | TBetween t' lo hi None =>
-      a <~ rtoks (opc SBetTerm t' c) t' ;; b <~ rtoks (opc SBetLo lo c) lo ;; d <~ rtoks (opc SBetHi hi c) hi ;;
+      a <~ rtoks (opc SBetTerm t' (set_wa c false)) t' ;; b <~ rtoks (opc SBetLo lo (set_wa c false)) lo ;;
+      d <~ rtoks (opc SBetHi hi (set_wa c false)) hi ;;
       Some (parl (operand_parens SBetTerm (okind_of t')) a ++ KBetween :: parl (operand_parens SBetLo (okind_of lo)) b
             ++ KOp (BB BAnd) :: parl (operand_parens SBetHi (okind_of hi)) d)
   | TIsNull t' None =>
       a <~ rtoks (opc SIsNull t' (set_wa c false)) t' ;; Some (parl (operand_parens SIsNull (okind_of t')) a ++ [KPost PIsNull])
   | TNotNull t' None =>
       a <~ rtoks (opc SNotNull t' (set_wa c false)) t' ;; Some (parl (operand_parens SNotNull (okind_of t')) a ++ [KPost PIsNotNull])
-  | TNot t' None => a <~ rtoks (set_subc c true) t' ;; Some (KNot :: a)
+  | TNot t' None => a <~ rtoks (set_wa (set_subc c true) false) t' ;; Some (KNot :: a)
   | TCase wl els None =>
       let c' := set_wa c false in
       match wl with
@@ -315,21 +317,23 @@ Fixpoint to_expr (c : ctx) (t : term) {struct t} : option expr :=
   | TField _ _ None | TStar _ | TValS _ None | TValI _ None | TValB _ _ None | TValNone None | TValRaw _ None
   | TLit _ None | TParam _ =>
       s <~ leaf_text (set_wa c false) t ;; match s with EmptyString => None | _ => Some (EAtom s) end
-  | TNeg t' => a <~ to_expr (opc SNeg t' c) t' ;; Some (ENeg a)
+  | TNeg t' => a <~ to_expr (opc SNeg t' (set_wa c false)) t' ;; Some (ENeg a)
   | TArith op l r None =>
       a <~ to_expr (opc SArithL l (set_wa c false)) l ;; b <~ to_expr (opc SArithR r (set_wa c false)) r ;; Some (EBin (BA op) a b)
   | TBasic cm l r None =>
       a <~ to_expr (opc SCmpL l (set_wa c false)) l ;; b <~ to_expr (opc SCmpR r (set_wa c false)) r ;; Some (EBin (BC cm) a b)
   | TCplx bo l r None =>
-      a <~ to_expr (set_subc c (needs_brackets_x bo (top_bop l))) l ;;
-      b <~ to_expr (set_subc c (needs_brackets_x bo (top_bop r))) r ;; Some (EBin (BB bo) a b)
+      a <~ to_expr (set_subc (set_wa c false) (needs_brackets_x bo (top_bop l))) l ;;
+      b <~ to_expr (set_subc (set_wa c false) (needs_brackets_x bo (top_bop r))) r ;; Some (EBin (BB bo) a b)
   | TIn t' (TTuple vs None) negated None =>
-      a <~ to_expr (opc SInTerm t' (set_subq c false)) t' ;; items <~ to_items (set_subq c true) vs ;; Some (EIn negated a items)
+      a <~ to_expr (opc SInTerm t' (set_wa (set_subq c false) false)) t' ;;
+      items <~ to_items (set_wa (set_wa (set_subq c true) false) false) vs ;; Some (EIn negated a items)
   | TBetween t' lo hi None =>
-      a <~ to_expr (opc SBetTerm t' c) t' ;; b <~ to_expr (opc SBetLo lo c) lo ;; d <~ to_expr (opc SBetHi hi c) hi ;; Some (EBetween a b d)
+      a <~ to_expr (opc SBetTerm t' (set_wa c false)) t' ;; b <~ to_expr (opc SBetLo lo (set_wa c false)) lo ;;
+      d <~ to_expr (opc SBetHi hi (set_wa c false)) hi ;; Some (EBetween a b d)
   | TIsNull t' None => a <~ to_expr (opc SIsNull t' (set_wa c false)) t' ;; Some (EPost PIsNull a)
   | TNotNull t' None => a <~ to_expr (opc SNotNull t' (set_wa c false)) t' ;; Some (EPost PIsNotNull a)
-  | TNot t' None => a <~ to_expr (set_subc c true) t' ;; Some (ENot a)
+  | TNot t' None => a <~ to_expr (set_wa (set_subc c true) false) t' ;; Some (ENot a)
   | TCase wl els None =>
       match wl with
       | WNil => None
